@@ -94,14 +94,10 @@ pub fn write_module(
     let output = if FORMAT_OUTPUT {
         // You may think that this is inefficient. It probably is.
         // It's still probably faster than running `rustfmt`.
-        match syn::parse_file(&raw_output) {
-            // prettyplease panics on syntax it has no formatting for (e.g. a `const` without
-            // a value in a prologue); treat that like code that can't be parsed at all.
-            Ok(parsed_file) => match std::panic::catch_unwind(|| {
-                prettyplease::unparse(&parsed_file)
-            }) {
-                Ok(output) => output,
-                Err(_) => {
+        match format_source(&raw_output) {
+            Ok(formatted) => match formatted {
+                Some(output) => output,
+                None => {
                     error = Some(format!(
                         concat!(
                             "Could not pretty-print the generated Rust code for {}. The code has been emitted as-is.\n",
@@ -112,8 +108,7 @@ pub fn write_module(
                     raw_output
                 }
             },
-            Err(err) => {
-                let lc = err.span().start();
+            Err((err, lc)) => {
                 error = Some(format!(
                     concat!(
                         "Could not parse generated Rust code to pretty-print. The code has been emitted as-is.\n",
@@ -145,6 +140,35 @@ pub fn write_module(
     }
 
     Ok(())
+}
+
+/// Parses and pretty-prints `source`: `Ok(None)` when it parses but cannot be printed,
+/// `Err` with the message and position when it does not parse.
+///
+/// Both steps recurse once per level of nesting in the code, and the code includes the
+/// module's prologues and epilogues, so they get a stack of their own: a few hundred
+/// `&` in front of a type in a prologue would otherwise overflow the caller's.
+fn format_source(source: &str) -> Result<Option<String>, (String, proc_macro2::LineColumn)> {
+    const FORMAT_STACK_SIZE: usize = 256 * 1024 * 1024;
+
+    let format = || match syn::parse_file(source) {
+        // prettyplease panics on syntax it has no formatting for (e.g. a `const` without
+        // a value in a prologue); treat that like code that can't be parsed at all.
+        Ok(parsed_file) => {
+            Ok(std::panic::catch_unwind(|| prettyplease::unparse(&parsed_file)).ok())
+        }
+        Err(err) => Err((err.to_string(), err.span().start())),
+    };
+
+    std::thread::scope(|scope| {
+        match std::thread::Builder::new()
+            .stack_size(FORMAT_STACK_SIZE)
+            .spawn_scoped(scope, format)
+        {
+            Ok(handle) => handle.join().unwrap_or(Ok(None)),
+            Err(_) => format(),
+        }
+    })
 }
 
 fn build_item(
